@@ -162,11 +162,14 @@ class ProgScenario(WfScenario):
     reference model: the terminal outcome must be one the language allows."""
 
     def __init__(self, name, prog, results=None, wf_input=None, jinja=False,
-                 compare_output=True, **kw):
+                 compare_output=True, check_prereq=False, compare_ctx=True,
+                 **kw):
         from mc import wfgen
         self.prog = prog
         self.jinja = jinja
         self.compare_output = compare_output
+        self.check_prereq = check_prereq
+        self.compare_ctx = compare_ctx
         kw.pop('yaml_text', None)
         super(ProgScenario, self).__init__(
             name, wfgen.render(prog, jinja=jinja), results=results,
@@ -177,15 +180,21 @@ class ProgScenario(WfScenario):
         d = super(ProgScenario, self).kwargs()
         d.pop('yaml_text')
         d.update(prog=self.prog, jinja=self.jinja,
-                 compare_output=self.compare_output)
+                 compare_output=self.compare_output,
+                 check_prereq=self.check_prereq,
+                 compare_ctx=self.compare_ctx)
         return d
 
     def model(self):
         if self._model is None:
             from mc import refmodel
-            self._model = refmodel.allowed_outcomes(
-                self.prog, self.wf_input, self.results,
-                env=(self.params or {}).get('env'))
+            if self.prog.get('type') == 'reverse':
+                self._model = refmodel.reverse_outcomes(
+                    self.prog, self.params['task_name'], self.results)
+            else:
+                self._model = refmodel.allowed_outcomes(
+                    self.prog, self.wf_input, self.results,
+                    env=(self.params or {}).get('env'))
         return self._model
 
     def setup(self):
@@ -198,16 +207,108 @@ class ProgScenario(WfScenario):
         d['confluent'] = self.model()['confluent']
         return d
 
+    # ---- C04: prerequisites of every task start ---------------------------
+    def check_step(self, pre, post, choice, ctx):
+        v = super(ProgScenario, self).check_step(pre, post, choice, ctx)
+        if self.check_prereq:
+            v.extend(prereq_violations(
+                self.prog, pre, post,
+                rerun=getattr(choice, 'is_rerun', False)))
+        return v
+
     def check_terminal(self, snap, ctx):
         from mc import refmodel
         key, v = super(ProgScenario, self).check_terminal(snap, ctx)
         m = self.model()
         if not m['truncated']:
             impl = refmodel.project_impl(outcome_of(snap))
-            if not any(refmodel.matches(impl, o, self.compare_output)
+            if not any(refmodel.matches(impl, o, self.compare_output,
+                                        self.compare_ctx)
                        for o in m['outcomes']):
                 v.append('terminal outcome is not one the workflow language '
                          'allows: impl=%s allowed=%s' % (
                              json.dumps(impl, sort_keys=True),
                              json.dumps(m['outcomes'][:4], sort_keys=True)))
         return key, v
+
+
+COMPLETED = ('SUCCESS', 'ERROR', 'CANCELLED', 'SKIPPED')
+
+
+def prereq_violations(prog, pre, post, rerun=False):
+    """No task starts before its prerequisites; a join runs exactly once
+    (transition oracle on two consecutive DB images)."""
+    from mc import refmodel
+    P = refmodel.Prog(prog)
+    v = []
+    root = [w for w in post['workflow_executions_v2']
+            if not w['task_execution_id']]
+    if not root:
+        return v
+    wid = root[0]['id']
+    pre_t = {t['id']: t for t in pre['task_executions_v2']}
+    tasks = [t for t in post['task_executions_v2']
+             if t['workflow_execution_id'] == wid]
+    by_name = {}
+    for t in tasks:
+        by_name.setdefault(t['name'], []).append(t)
+    reverse = prog.get('type') == 'reverse'
+    pre_a = set(a['id'] for a in pre['action_executions_v2'])
+    acts = {}
+    for a in post['action_executions_v2']:
+        acts.setdefault(a['task_execution_id'], []).append(a)
+    for t in tasks:
+        spec = prog['tasks'].get(t['name'])
+        if spec is None:
+            v.append('task %s is not part of the definition' % t['name'])
+            continue
+        p = pre_t.get(t['id'])
+        if reverse:
+            if p is None:
+                for r in spec.get('requires') or []:
+                    ok = any(x['state'] == 'SUCCESS'
+                             for x in by_name.get(r, []))
+                    if not ok:
+                        v.append('reverse workflow: task %s created although '
+                                 'required task %s has not succeeded'
+                                 % (t['name'], r))
+                if len(by_name[t['name']]) > 1:
+                    v.append('reverse workflow: task %s created twice'
+                             % t['name'])
+            continue
+        j = spec.get('join')
+        if not j:
+            continue
+        if len(by_name[t['name']]) > 1:
+            v.append('join %s has %d task executions in one run'
+                     % (t['name'], len(by_name[t['name']])))
+        inb = P.inbound(t['name'])
+        routed = 0
+        for u in inb:
+            for x in by_name.get(u, []):
+                nt = jl(x['next_tasks']) or []
+                if x['state'] in COMPLETED and any(
+                        n[0] == t['name'] for n in nt):
+                    routed += 1
+                    break
+        need = len(inb) if j == 'all' else (1 if j == 'one' else int(j))
+        was = p['state'] if p else None
+        if t['state'] == 'RUNNING' and was != 'RUNNING' \
+                and was != 'DELAYED':
+            if routed < need:
+                v.append('join %s (join: %s) started with only %d of the %d '
+                         'required inbound tasks completed and routed to it'
+                         % (t['name'], j, routed, need))
+        if p is not None and not rerun and was in COMPLETED \
+                and t['state'] not in COMPLETED:
+            v.append('join %s (join: %s) left its final state %s for %s: it '
+                     'runs a second time in the same run'
+                     % (t['name'], j, was, t['state']))
+        n_act = len(acts.get(t['id'], []))
+        new_act = [a for a in acts.get(t['id'], []) if a['id'] not in pre_a]
+        retry = bool(spec.get('retry')) or bool(
+            (prog.get('task-defaults') or {}).get('retry'))
+        if new_act and n_act > 1 and not retry and not rerun:
+            v.append('join %s (join: %s) started %d times in one run '
+                     '(action created again)' % (t['name'], j, n_act))
+    return v
